@@ -81,7 +81,8 @@ def cases():
             if not single:
                 # keyword-only and defaulted forms of the reserved parameter
                 for form, call in (("x, *, {}=None".format(reserved), "1"), ("x, *rest, {}".format(reserved), "1, {}=2".format(reserved)),
-                                   ("x, {}=None".format(reserved), "1"), ("{}, /, x".format(reserved), "1, 2")):
+                                   ("x, {}=None".format(reserved), "1"), ("{}, /, x".format(reserved), "1, 2"),
+                                   ("x, *{}".format(reserved), "1"), ("x, **{}".format(reserved), "1")):
                     add("param_{}_form/{}/{}".format(reserved, form.replace(" ", ""), kind), {"D": "icontract.require(cond_true)"}, kind, form, ["D"], call,
                         ("decorate", "TypeError"), "reserved_parameter")
         # 1b. the same parameter in a function which overrides a contracted one WITHOUT decorators of its own (checker made by the meta-class)
@@ -114,7 +115,10 @@ def cases():
                 # keyword-only / defaulted forms of the parameter, supplied or left to its default
                 for form, call in (("x, *, {}=None".format(reserved), "1"), ("x, *, {}=None".format(reserved), "1, {}=2".format(reserved)),
                                    ("x, {}=None".format(reserved), "1"), ("x, *rest, {}=3".format(reserved), "1, 2"),
-                                   ("{}, /, x".format(reserved), "1, 2")):
+                                   ("{}, /, x".format(reserved), "1, 2"),
+                                   # the variable parameters bear the name: with and without surplus arguments in the call
+                                   ("x, *{}".format(reserved), "1"), ("x, *{}".format(reserved), "1, 2"),
+                                   ("x, **{}".format(reserved), "1"), ("x, **{}".format(reserved), "1, k=2")):
                     add("param_{}_form/{}/{}/{}".format(reserved, form.replace(" ", ""), call.replace(" ", ""), kind), {"D": "icontract.ensure(cond_true)"},
                         kind, form, ["D"], call, ("call", "TypeError"), "result_or_OLD_parameter")
             # with preconditions only such a parameter is legal
@@ -154,6 +158,10 @@ def cases():
         ("self_and_var_keyword", "lambda self, **kw: True", ("create", "ValueError")),
         ("only_var_keyword", "lambda **kw: True", ("create", "ValueError")),
         ("self_and_mandatory_keyword_only", "lambda self, *, z: True", ("create", "ValueError")),
+        ("var_keyword_named_self", "lambda **self: True", ("create", "ValueError")),
+        ("var_positional_named_self", "lambda *self: True", ("create", "ValueError")),
+        ("positional_only_self", "lambda self, /: True", ("create", "ValueError")),
+        ("keyword_only_self_ok", "lambda *, self: True", ("ok",)),
         ("self_ok", "lambda self: True", ("ok",)),
         ("no_args_ok", "lambda: True", ("ok",)),
         ("self_and_default_ok", "lambda self, y=1: True", ("ok",)),
